@@ -42,3 +42,7 @@ PROPS["C05"] = dict(pkg="chain", level="exploration", stages=[
     direct("heavy", "TestC05Heavy"),
     rapid("rapid", "TestC05", dict(shards=16, checks=100), dict(shards=16, checks=3000, timeout=7000)),
 ])
+
+PROPS["C04"] = dict(pkg="chain", level="exploration", stages=[
+    rapid("rapid", "TestC04", dict(shards=16, checks=120), dict(shards=16, checks=4000, timeout=7000)),
+])
